@@ -249,14 +249,6 @@ Tick == /\ now < MaxTime /\ now' = now + 1
         /\ \A th \in Threads : ~Wakeable(th) /\ ~(pc[th] = "sleep" /\ now >= loc[th].until)
         /\ UNCHANGED <<pc, ip, loc>> /\ Keep(obj) /\ ResKeep /\ GhostKeep
 
-Step(th) == \/ Next_(th) \/ Finish(th) \/ Sleep(th) \/ N37(th)
-            \/ C94(th) \/ C95(th) \/ C96(th) \/ C97(th)
-            \/ S80(th) \/ S81(th) \/ S82(th) \/ S85(th) \/ S89(th) \/ S90(th) \/ SRel(th)
-            \/ Q137(th) \/ Q138(th) \/ Q139(th) \/ QRel(th)
-            \/ RAcq(th) \/ D99(th) \/ D100(th) \/ D101(th) \/ D102(th) \/ DRet(th)
-            \/ F117(th) \/ F117b(th) \/ FRet(th)
-            \/ WAcq(th) \/ W106(th) \/ W110(th) \/ W114(th) \/ WBlk(th) \/ I50(th)
-
 (* ------------------------------------------------------------------ ghosts *)
 (* g[th] follows the shared state for the duration of th's call: which moments did the call overlap? *)
 QuietAt(ev, ac) == ev = {} /\ ac = <<>>
@@ -276,9 +268,45 @@ GhostUpd ==
               IF pc'[th] \notin {"next", "done"} THEN Ext(base, OpOf(th)) ELSE G0]
    /\ gQs' = IF QuietAt(events', actions') THEN (IF QuietAt(events, actions) /\ gQs >= 0 THEN gQs ELSE now') ELSE -1
 
-Next == (Tick \/ \E th \in Threads : Step(th)) /\ GhostUpd
+Acts(th) ==
+   \/ Next_(th) /\ GhostUpd
+   \/ Finish(th) /\ GhostUpd
+   \/ Sleep(th) /\ GhostUpd
+   \/ N37(th) /\ GhostUpd
+   \/ C94(th) /\ GhostUpd
+   \/ C95(th) /\ GhostUpd
+   \/ C96(th) /\ GhostUpd
+   \/ C97(th) /\ GhostUpd
+   \/ S80(th) /\ GhostUpd
+   \/ S81(th) /\ GhostUpd
+   \/ S82(th) /\ GhostUpd
+   \/ S85(th) /\ GhostUpd
+   \/ S89(th) /\ GhostUpd
+   \/ S90(th) /\ GhostUpd
+   \/ SRel(th) /\ GhostUpd
+   \/ Q137(th) /\ GhostUpd
+   \/ Q138(th) /\ GhostUpd
+   \/ Q139(th) /\ GhostUpd
+   \/ QRel(th) /\ GhostUpd
+   \/ RAcq(th) /\ GhostUpd
+   \/ D99(th) /\ GhostUpd
+   \/ D100(th) /\ GhostUpd
+   \/ D101(th) /\ GhostUpd
+   \/ D102(th) /\ GhostUpd
+   \/ DRet(th) /\ GhostUpd
+   \/ F117(th) /\ GhostUpd
+   \/ F117b(th) /\ GhostUpd
+   \/ FRet(th) /\ GhostUpd
+   \/ WAcq(th) /\ GhostUpd
+   \/ W106(th) /\ GhostUpd
+   \/ W110(th) /\ GhostUpd
+   \/ W114(th) /\ GhostUpd
+   \/ WBlk(th) /\ GhostUpd
+   \/ I50(th) /\ GhostUpd
+
+Next == (Tick /\ GhostUpd) \/ \E th \in Threads : Acts(th)
 Spec == Init /\ [][Next]_vars
-FairSpec == Spec /\ WF_vars(Tick /\ GhostUpd) /\ \A th \in Threads : WF_vars(Step(th) /\ GhostUpd)
+FairSpec == Spec /\ WF_vars(Tick /\ GhostUpd) /\ \A th \in Threads : WF_vars(Acts(th))
 
 (* ------------------------------------------------------------------ properties *)
 LockFree == lockOwner = None
